@@ -311,6 +311,18 @@ def _lift(f, src: str):
     return go(f)
 
 
+def _ranges_over_both_ends(view: FuncInfo, sh: Shapes, y: ast.Name) -> bool:
+    from .c05_views import stores_of
+    from core.loader import parent as _parent
+
+    for st in stores_of(view, y.id):
+        p = _parent(st)
+        it = p.iter if isinstance(p, (ast.For, ast.AsyncFor, ast.comprehension)) and p.target is st else None
+        if it is None or not any(t[0] == "K" for t in sh.tags(it)):
+            return False
+    return bool(stores_of(view, y.id))
+
+
 def _is_gating(view: FuncInfo, sh: Shapes, c: ast.expr) -> bool:
     """The condition cannot hide a decision about realised pairs: it only reads parameters that carry no dependency data,
     fields of the detector, or asks whether a dictionary of dependencies has *keys* (`if not group: continue`)."""
@@ -343,18 +355,29 @@ def _orientation(repo: Repo, view: FuncInfo, sh: Shapes):
     """Layer lookups whose argument is one end of an *abstract* (subject, object) pair must take the object side:
     index 1 when the importer is the rule subject, index 0 otherwise."""
     subst = sh.guard_subst(_orientation_subst(sh))
+    done: set[int] = set()
     for n in all_nodes(view):
-        if not (isinstance(n, ast.Call) and isinstance(n.func, ast.Attribute) and n.func.attr == LOOKUP and (n.args or n.keywords)):
+        if not isinstance(n, (ast.Call, ast.Subscript)) or id(n) in done:
             continue
-        arg = n.args[0] if n.args else n.keywords[0].value
-        if not any(t[0] == "KN" and t[1] == "E" for t in sh.tags(arg)):
+        if isinstance(n, ast.Call) and not (isinstance(n.func, ast.Attribute) and n.func.attr == LOOKUP and (n.args or n.keywords)) and not isinstance(n.func, ast.Name):
             continue
+        arg = sh._is_lookup(n)
+        if arg is None:
+            continue
+        for y in ast.walk(n):
+            done.add(id(y))
+        at = sh.tags(arg)
+        if not any(t[0] in ("KN", "KE") and t[1] == "E" for t in at):
+            continue
+        as_module = any(t[0] == "KE" for t in at) and not any(t[0] == "KN" for t in at)
         construct = key_of(repo, view, n, " [object-side module]")
         wh = where_of(view, n)
         cases = []
         ok_res = True
+        every_end = False
         for cs1, x in value_cases(view, arg):
-            x = x.value if isinstance(x, ast.Attribute) and x.attr in ("identifier", "name") else None
+            if not as_module:
+                x = x.value if isinstance(x, ast.Attribute) and x.attr in ("identifier", "name") else None
             if x is None:
                 ok_res = False
                 break
@@ -369,8 +392,12 @@ def _orientation(repo: Repo, view: FuncInfo, sh: Shapes):
                     e = sh._end(y)
                     if e is not None:
                         cases.append((cs1 + cs2, e[1]))
+                    elif isinstance(y, ast.Name) and _ranges_over_both_ends(view, sh, y):
+                        every_end = True  # a table of the layers of *all* modules involved: no side is chosen here
                     else:
                         ok_res = False
+        if every_end and not cases:
+            continue
         if not ok_res or not cases:
             yield None, construct, f"cannot determine which end of the abstract dependency `{norm(arg, 50)}` denotes", wh
             continue
